@@ -1,7 +1,8 @@
 """Timer component to facilitate timed events."""
 
 from datetime import datetime
-from time import mktime, time
+from math import floor
+from time import time
 
 from circuits.core.handlers import handler
 
@@ -74,7 +75,9 @@ class Timer(BaseComponent):
         for.
         """
         if interval is not None and isinstance(interval, datetime):
-            self.interval = mktime(interval.timetuple()) - time()
+            # (timestamp() honours the time zone and the fold of the deadline;
+            # whole seconds as before)
+            self.interval = floor(interval.timestamp()) - time()
         elif interval is not None:
             self.interval = interval
 
